@@ -6,6 +6,7 @@
   (bitcoin.core.Hash) is an opaque parameter.  Helper lemmas live in Proofs/Base58.lean.
 -/
 import BtcVerif.Proofs.Base58
+import BtcVerif.Proofs.CryptoLen
 
 namespace BtcVerif.C10
 open BtcVerif BtcVerif.Base58Proofs
@@ -144,6 +145,12 @@ theorem check_roundtrip (H : Bytes → Bytes) (hH : ∀ x, 4 ≤ (H x).length) (
   refine ⟨v :: p ++ (H (v :: p)).take 4, ?_, (H (v :: p)).take 4, rfl, ?_, rfl⟩
   · simp only [str, encode_eq_spec]; exact Base58Proofs.spec_dec_enc _
   · rw [List.length_take]; have := hH (v :: p); omega
+
+/-- `check_roundtrip` for the real hash (SHA-256d): no hypothesis on the hash is left -/
+theorem check_roundtrip_sha256d (v : UInt8) (p : Bytes) :
+    ∃ d, fromBytes p (v.toNat : Int) = .ok d ∧ d = ⟨v, p⟩ ∧
+      Model.Base58.new Crypto.hash256 (str Crypto.hash256 d) = .ok ⟨v, p⟩ :=
+  check_roundtrip Crypto.hash256 (fun x => by rw [Crypto.hash256_length]; omega) v p
 
 /-! ### non-vacuity -/
 
